@@ -175,6 +175,7 @@ WORLDS = {
     "noseg-2d-csv": dict(ndim=3, seg=False, scale=None, pos="single", extra=[], custom=False, ids="compute", reload="csv"),
     "noseg-2d-geff": dict(ndim=3, seg=False, scale=None, pos="single", extra=[], custom=False, ids="compute", reload="geff"),
     "seg-2d-geff": dict(ndim=3, seg=True, scale=[1.0, 2.0, 0.75], pos="single", extra=["iou"], custom=False, ids="compute", reload="geff"),
+    "seg-2d-csvseg": dict(ndim=3, seg=True, scale=None, pos="single", extra=["iou"], custom=False, ids="compute", reload="csvseg"),
     # ... with the measurements and IoU loaded from the file instead of recomputed
     "seg-2d-geff-loaded": dict(ndim=3, seg=True, scale=[1.0, 1.0, 1.0], pos="single", extra=["iou", "circularity"], custom=False,
                                ids="compute", reload="geff", load_features=True),
@@ -356,7 +357,7 @@ def build(w, seed) -> SolutionTracks:
     if w["custom"]:
         tracks.features["score"] = custom_feature("node")
         tracks.features["w"] = custom_feature("edge")
-    if w.get("reload") in ("csv", "geff"):
+    if w.get("reload") in ("csv", "geff", "csvseg"):
         tracks = _through_files(tracks, w)
     elif w.get("reload"):
         import pathlib
@@ -388,7 +389,23 @@ def _through_files(tracks, w):
     axes = ["y", "x"] if w["ndim"] == 3 else ["z", "y", "x"]
     f = tracks.features
     try:
-        if w["reload"] == "csv":
+        if w["reload"] == "csvseg":
+            # a node table plus a label image whose labels differ from the node ids (label = id + 10):
+            # the importer relabels the image and keeps the seg_id column as a plain node attribute
+            seg = np.asarray(tracks.segmentation)
+            parent = {v: u for u, v in tracks.graph.edges}
+            rows = []
+            for n in sorted(tracks.graph.nodes):
+                p = tracks.get_position(n)
+                r = {"time": int(tracks.get_time(n)), "id": int(n), "parent_id": int(parent.get(n, -1)), "seg_id": int(n) + 10}
+                r.update({a: float(v) for a, v in zip(axes, p)})
+                rows.append(r)
+            back = tracks_from_df(pd.DataFrame(rows), segmentation=np.where(seg > 0, seg + 10, 0).astype(seg.dtype),
+                                  scale=None if tracks.scale is None else list(tracks.scale),
+                                  node_name_map={"time": "time", "pos": axes, "id": "id", "parent_id": "parent_id", "seg_id": "seg_id"})
+            if w["extra"]:
+                back.enable_features(list(w["extra"]))
+        elif w["reload"] == "csv":
             export_to_csv(tracks, d / "t.csv")
             df = pd.read_csv(d / "t.csv", float_precision="round_trip")
             back = tracks_from_df(df, node_name_map={"time": "t", "pos": axes, "id": "id", "parent_id": "parent_id",
